@@ -1465,6 +1465,7 @@ DEVIATIONS = [
     ("MC_Lifecycle", "MC_Lifecycle_q1", {"AllowNested": "TRUE"}, ("NoSelfDeadlock",)),
     ("MC_Lifecycle", "MC_Lifecycle_q1", {"KeepPagesWritable": "TRUE"}, ("WX",)),
     ("MC_Lock", "MC_Lock_q", {"OthersCall": '"always"'}, ("NoFault",)),
+    ("MC_Lifecycle", "MC_Steps_q", {"TrampFlushed": "FALSE"}, ("FlushedAtUser",)),
     ("MC_ArmSeq", "MC_ArmSeq", {"Scratch": "7"}, ("OnlyScratch",)),
     ("MC_ArmSeq", "MC_ArmSeq", {"Scratch": "9"}, ("OnlyScratch",)),
     ("MC_ArmSeq", "MC_ArmSeq", {"ImmT": "2"}, ("Reaches", "OneLoad")),
